@@ -5,6 +5,7 @@ import (
 	"fmt"
 	"io/ioutil"
 	"path/filepath"
+	"strings"
 
 	. "github.com/pbenner/autodiff"
 	"verifharness/vh"
@@ -23,7 +24,7 @@ func (r *runner) sig(c *tcase, et *etype, what string) vh.M {
 		mode = "fault"
 	}
 	return vh.M{"engine": "serial", "mode": mode, "kind": c.Obj.K, "cls": c.Obj.Cls, "storage": c.Obj.St,
-		"format": c.Fmt, "view": c.Obj.viewWord(), "fault": ft, "tclass": et.class(), "what": what}
+		"format": c.Fmt, "view": c.Obj.viewWord(), "fault": ft, "tclass": et.class(), "what": what, "layout": layoutOf(c)}
 }
 
 func (r *runner) report(c *tcase, raw json.RawMessage, et *etype, what, msg string, doc []byte, extra vh.M) {
@@ -190,9 +191,15 @@ func (r *runner) runInst(ci, ii int, c *tcase, raw json.RawMessage, et *etype) {
 	if c.Mutated != nil {
 		mut = []byte(*c.Mutated)
 	}
+	// ---- another legal byte layout of the same table document
+	if c.Fmt == "table" && c.Layout != "" && c.Layout != "canonical" {
+		mut = applyLayout(mut, c.Layout)
+		r.count("layout_" + c.Layout)
+	}
+	onDisk := roundtrip && (c.Layout == "" || c.Layout == "canonical")
 	// ---- decode
 	r.jr.at(ci, ii, "decode")
-	dec, err, pm := decode(et, src, c.Fmt, mut, path, roundtrip)
+	dec, err, pm := decode(et, src, c.Fmt, mut, path, onDisk)
 	r.jr.at(ci, ii, "judge")
 	if roundtrip {
 		r.count("roundtrips")
@@ -201,7 +208,11 @@ func (r *runner) runInst(ci, ii int, c *tcase, raw json.RawMessage, et *etype) {
 			return
 		}
 		if err != nil {
-			r.report(c, raw, et, "decode_error", err.Error(), doc, nil)
+			if c.Expect == "roundtrip-equal-or-error" {
+				r.count("layout_rejected")
+				return
+			}
+			r.report(c, raw, et, "decode_error", err.Error(), mut, nil)
 			return
 		}
 		var what, msg string
@@ -219,7 +230,7 @@ func (r *runner) runInst(ci, ii int, c *tcase, raw json.RawMessage, et *etype) {
 				// Serialization!KnownDeviation_TableDims: exactly the 0 x 0 matrix
 				extra["deviation"] = "table-dims-lost"
 			}
-			r.report(c, raw, et, what, msg, doc, extra)
+			r.report(c, raw, et, what, msg, mut, extra)
 		}
 		return
 	}
@@ -304,4 +315,27 @@ func compareAt(et *etype, o *absObj, e *absExp, obs *observation) (string, strin
 		}
 	}
 	return "", ""
+}
+
+func layoutOf(c *tcase) string {
+	if c.Layout == "" {
+		return "canonical"
+	}
+	return c.Layout
+}
+
+// applyLayout rewrites a table file written by Export into another byte
+// layout with the same lines and tokens (Serialization!TableLayouts).
+func applyLayout(b []byte, layout string) []byte {
+	s := string(b)
+	switch layout {
+	case "NoFinalNewline":
+		// the last line is not terminated (what Table() yields, or another tool writes)
+		s = strings.TrimRight(s, "\n")
+	case "CRLF":
+		s = strings.Replace(s, "\n", "\r\n", -1)
+	case "TrailingBlanks":
+		s = strings.Replace(s, "\n", " \t\n", -1)
+	}
+	return []byte(s)
 }
